@@ -41,16 +41,18 @@ Section Fails.
   Variable ix : indexer.
   Variables unicode utf16 : bool.
   Variable h : hay.
+  Variable okp : nat -> Prop.
   Notation IR := (ir_results ix unicode utf16 h).
-  Notation ref := (ref ix unicode utf16 h).
-  Notation PRel := (PRel ix unicode utf16 h).
+  Notation ref := (ref ix unicode utf16 h okp).
+  Notation al := (al ix unicode utf16 h okp).
+  Notation PRel := (PRel ix unicode utf16 h okp).
   (* the elements the indexer hands out are code points (true of the ASCII indexer, and of the UTF-8 indexer on
      well-formed text); used for one case only: the inverted bracket that contains every code point *)
-  Hypothesis Hcp : forall fwd p c p', cnext ix fwd h p = Ok (Some (c, p')) -> c <= CODE_POINT_MAX.
+  Hypothesis Hcp : forall fwd p c p', okp p -> cnext ix fwd h p = Ok (Some (c, p')) -> c <= CODE_POINT_MAX.
 
-  Lemma fails_res n : match_always_fails n = true -> forall f fwd x r, IR f n fwd x = Some r -> r = [].
+  Lemma fails_res n : match_always_fails n = true -> forall f fwd x r, okp (fst x) -> IR f n fwd x = Some r -> r = [].
   Proof.
-    intros Hf [|f] fwd [p G] r E; [discriminate|].
+    intros Hf [|f] fwd [p G] r Hx E; [discriminate|]. cbn [fst] in Hx.
     destruct n; try discriminate Hf; cbn [match_always_fails] in Hf.
     - destruct bs; [|discriminate]. cbn in E. inversion E; reflexivity.
     - destruct cs; [|discriminate]. cbn in E. inversion E; reflexivity.
@@ -60,7 +62,7 @@ Section Fails.
         destruct ivs as [|[lo hi] [|? ?]]; try discriminate Hf. cbn [cps_contains_all] in Hf.
         apply andb_true_iff in Hf as [H0 H1]. apply N.eqb_eq in H0, H1. subst lo hi.
         unfold next_if in E. destruct (cnext ix fwd h p) as [e|[[c p']|]] eqn:Ec; cbn [bindR] in E; try discriminate.
-        * pose proof (Hcp _ _ _ _ Ec) as Hc. unfold bracket_matches in E. cbn [br_invert br_ivs ivs_contains existsb fst snd] in E.
+        * pose proof (Hcp _ _ _ _ Hx Ec) as Hc. unfold bracket_matches in E. cbn [br_invert br_ivs ivs_contains existsb fst snd] in E.
           replace ((0 <=? c) && (c <=? CODE_POINT_MAX) || false) with true in E
             by (symmetry; rewrite orb_false_r; apply andb_true_iff; split; [apply N.leb_le; lia|apply N.leb_le; exact Hc]).
           cbn [negb] in E. inversion E; reflexivity.
@@ -78,21 +80,33 @@ Section Fails.
 
   (* a node all of whose results are empty is refined by the always-failing node *)
   Lemma ref_to_fail fwd n : l1_body_ok n = false ->
-    (forall f x r, IR f n fwd x = Some r -> r = []) -> ref fwd n make_always_fails.
+    (forall f x r, okp (fst x) -> IR f n fwd x = Some r -> r = []) -> ref fwd n make_always_fails.
   Proof.
     intros Hns Hall. split; [|apply rstep_nol1; exact Hns].
-    apply (rres_fle ix unicode utf16 h fwd _ _ 0%nat). intros [|f] x r E; [discriminate|]. rewrite Nat.add_0_r. rewrite (Hall _ _ _ E). apply ir_fail_eq.
+    apply (rres_fleO ix unicode utf16 h okp fwd _ _ 0%nat). intros [|f] x r Hx E; [discriminate|].
+    rewrite Nat.add_0_r. rewrite (Hall _ _ _ Hx E). apply ir_fail_eq.
   Qed.
 
-  Lemma cat_fails f fwd : forall l xs r, existsb match_always_fails l = true ->
+  Lemma obindm_all_nilP {A} (P : A -> Prop) (g : A -> option (list mst)) : (forall x r, P x -> g x = Some r -> r = []) ->
+    forall xs ys, Forall P xs -> obindm g xs = Some ys -> ys = [].
+  Proof.
+    intros Hg. induction xs as [|x xs IH]; intros ys HP E; cbn [obindm] in E; [inversion E; reflexivity|].
+    destruct (g x) as [a|] eqn:Ea; [|discriminate]. destruct (obindm g xs) as [b|] eqn:Eb; [|discriminate].
+    inversion E; subst. inversion HP; subst. rewrite (Hg x a) by assumption. rewrite (IH b) by auto. reflexivity.
+  Qed.
+
+  Lemma cat_fails f fwd : forall l xs r, existsb match_always_fails l = true -> Forall al l -> okl okp xs ->
     cat_results (fun c => IR f c fwd) l xs = Some r -> r = [].
   Proof.
-    induction l as [|c l IH]; intros xs r Hex E; [discriminate|]. cbn [cat_results] in E. cbn [existsb] in Hex.
+    induction l as [|c l IH]; intros xs r Hex Hal Hx E; [discriminate|]. cbn [cat_results] in E. cbn [existsb] in Hex.
+    inversion Hal as [|c0 l0 Hac Hall]; subst.
     destruct (obindm (IR f c fwd) xs) as [ys|] eqn:Eb; [|discriminate].
     destruct (match_always_fails c) eqn:Hc.
-    - rewrite (obindm_all_nil _ (fun x r0 => fails_res c Hc f fwd x r0) xs ys Eb) in E. rewrite cat_nil in E.
+    - rewrite (obindm_all_nilP (oks okp) _ (fun x r0 => fails_res c Hc f fwd x r0) xs ys Hx Eb) in E. rewrite cat_nil in E.
       inversion E; reflexivity.
-    - eapply IH; [exact Hex|exact E].
+    - eapply IH; [exact Hex|exact Hall| |exact E].
+      eapply (obindm_okl okp (oks okp)); [|exact Hx|exact Eb]. intros x r0 Hxx Er.
+      eapply (closed_al ix unicode utf16 h okp f c fwd Hac); eauto.
   Qed.
 
   Lemma fails_sound lb n a : propagate_early_fails lb n = Ok a -> PRel lb n (act_node a n).
@@ -103,45 +117,48 @@ Section Fails.
     destruct n; try (inversion E; subst; apply PRel_refl).
     - (* Cat *)
       destruct (existsb match_always_fails l) eqn:Hex; inversion E; subst; [|apply PRel_refl].
-      intro Hq. cbn [act_node]. split; [|split; [reflexivity|rewrite Hng; reflexivity]].
-      apply ref_to_fail; [reflexivity|]. intros [|f] x r Er; [discriminate|]. rewrite ir_cat_eq in Er.
-      eapply cat_fails; eauto.
+      intros Hq Ha. cbn [act_node]. split; [|split; [reflexivity|split; [apply al_fails|rewrite Hng; reflexivity]]].
+      apply ref_to_fail; [reflexivity|]. intros [|f] x r Hx Er; [discriminate|]. rewrite ir_cat_eq in Er.
+      eapply cat_fails; [exact Hex|apply al_cat; exact Ha| |exact Er]. constructor; [exact Hx|constructor].
     - (* Alt *)
       cbn [ng] in Hng.
       destruct (match_always_fails n1) eqn:H1; destruct (match_always_fails n2) eqn:H2; inversion E; subst;
-        try apply PRel_refl; intro Hq; cbn [act_node]; cbn [qok] in Hq; apply andb_true_iff in Hq as [Hq1 Hq2].
-      + split; [|split; [reflexivity|cbn [ng]; rewrite Hng; reflexivity]].
-        apply ref_to_fail; [reflexivity|]. intros [|f] x r Er; [discriminate|]. rewrite ir_alt_eq in Er.
+        try apply PRel_refl; intros Hq Ha; cbn [act_node]; cbn [qok] in Hq; apply andb_true_iff in Hq as [Hq1 Hq2];
+        destruct Ha as [Ha1 Ha2].
+      + split; [|split; [reflexivity|split; [apply al_fails|cbn [ng]; rewrite Hng; reflexivity]]].
+        apply ref_to_fail; [reflexivity|]. intros [|f] x r Hx Er; [discriminate|]. rewrite ir_alt_eq in Er.
         destruct (IR f n1 (negb lb) x) as [u|] eqn:Eu; [|discriminate].
         destruct (IR f n2 (negb lb) x) as [v|] eqn:Ev; [|discriminate].
-        rewrite (fails_res n1 H1 _ _ _ _ Eu), (fails_res n2 H2 _ _ _ _ Ev) in Er. inversion Er; reflexivity.
-      + split; [|split; [exact Hq2|cbn [ng]; lia]].
+        rewrite (fails_res n1 H1 _ _ _ _ Hx Eu), (fails_res n2 H2 _ _ _ _ Hx Ev) in Er. inversion Er; reflexivity.
+      + split; [|split; [exact Hq2|split; [exact Ha2|cbn [ng]; lia]]].
         split; [|apply rstep_nol1; reflexivity].
-        apply (rres_fle ix unicode utf16 h (negb lb) _ _ 0%nat). intros [|f] x r Er; [discriminate|]. rewrite Nat.add_0_r. rewrite ir_alt_eq in Er.
+        apply (rres_fleO ix unicode utf16 h okp (negb lb) _ _ 0%nat). intros [|f] x r Hx Er; [discriminate|].
+        rewrite Nat.add_0_r. rewrite ir_alt_eq in Er.
         destruct (IR f n1 (negb lb) x) as [u|] eqn:Eu; [|discriminate].
         destruct (IR f n2 (negb lb) x) as [v|] eqn:Ev; [|discriminate].
-        rewrite (fails_res n1 H1 _ _ _ _ Eu) in Er. inversion Er; subst.
+        rewrite (fails_res n1 H1 _ _ _ _ Hx Eu) in Er. inversion Er; subst.
         eapply ir_fuel_mono; [|exact Ev]. lia.
-      + split; [|split; [exact Hq1|cbn [ng]; lia]].
+      + split; [|split; [exact Hq1|split; [exact Ha1|cbn [ng]; lia]]].
         split; [|apply rstep_nol1; reflexivity].
-        apply (rres_fle ix unicode utf16 h (negb lb) _ _ 0%nat). intros [|f] x r Er; [discriminate|]. rewrite Nat.add_0_r. rewrite ir_alt_eq in Er.
+        apply (rres_fleO ix unicode utf16 h okp (negb lb) _ _ 0%nat). intros [|f] x r Hx Er; [discriminate|].
+        rewrite Nat.add_0_r. rewrite ir_alt_eq in Er.
         destruct (IR f n1 (negb lb) x) as [u|] eqn:Eu; [|discriminate].
         destruct (IR f n2 (negb lb) x) as [v|] eqn:Ev; [|discriminate].
-        rewrite (fails_res n2 H2 _ _ _ _ Ev), app_nil_r in Er. inversion Er; subst.
+        rewrite (fails_res n2 H2 _ _ _ _ Hx Ev), app_nil_r in Er. inversion Er; subst.
         eapply ir_fuel_mono; [|exact Eu]. lia.
     - (* Loop *)
       destruct (egs <? ege)%nat; [inversion E; subst; apply PRel_refl|].
       destruct ((0 <? min) && match_always_fails n) eqn:Hc; inversion E; subst; [|apply PRel_refl].
       apply andb_true_iff in Hc as [Hmn Hf]. apply N.ltb_lt in Hmn.
-      intro Hq. cbn [act_node]. split; [|split; [reflexivity|rewrite Hng; reflexivity]].
-      apply ref_to_fail; [reflexivity|]. intros [|f] x r Er; [discriminate|]. rewrite ir_loop_eq in Er.
+      intros Hq Ha. cbn [act_node]. split; [|split; [reflexivity|split; [apply al_fails|rewrite Hng; reflexivity]]].
+      apply ref_to_fail; [reflexivity|]. intros [|f] x r Hx Er; [discriminate|]. rewrite ir_loop_eq in Er.
       destruct f as [|f]; [discriminate|]. cbn [loop_results] in Er.
       replace (0 <? 0) with false in Er by reflexivity. cbn [andb] in Er.
       replace (min <=? 0) with false in Er by (symmetry; apply N.leb_gt; exact Hmn). cbn [negb andb] in Er.
       destruct (0 <? max_val max); cbn [negb] in Er; [|inversion Er; reflexivity].
       destruct (reset_groups (snd x) egs (ege - egs)) as [g1|]; [|discriminate].
       destruct (IR (S f) n (negb lb) (fst x, g1)) as [zs|] eqn:Ez; [|discriminate].
-      rewrite (fails_res n Hf _ _ _ _ Ez) in Er. cbn [obindm] in Er. inversion Er; reflexivity.
+      rewrite (fails_res n Hf _ _ (fst x, g1) _ Hx Ez) in Er. cbn [obindm] in Er. inversion Er; reflexivity.
   Qed.
 
   Theorem fails_pass_sound fuel n n' : run_to_fixpoint propagate_early_fails fuel n = Ok n' -> PRel false n n'.
